@@ -18,6 +18,13 @@ for n, m, r in rows:
         oc, w = "not evaluated", ""
     else:
         oc = ("**caught** (exit 1, %d violation lines)" % r["violation_lines"]) if r["caught"] else ("NOT caught (exit %s)" % r["exit_code"])
+        if r.get("configuration_sweep"):
+            cs = r["configuration_sweep"]
+            oc = ("property check: exit %s (the monitors run with `std`; `release-libm` profile included); " % r["exit_code"]) + ("configuration sweep C20: **caught** (%d violation lines)" % cs["violation_lines"] if cs["caught"] else "configuration sweep C20: not caught (exit %s)" % cs["exit_code"])
+            if r["exit_code"] == 1:
+                oc = "**caught** by the property's own check (exit 1, %d violation lines); " % r["violation_lines"] + oc.split("; ", 1)[1]
+            if not w:
+                w = cs["first_witness"][:220].replace("|", "\\|")
         if r.get("first_evaluation"):
             oc += "; " + r["first_evaluation"]
         if r.get("note"):
